@@ -20,6 +20,7 @@ LEAN_COMPONENT = "tasks"
 ANCHORS = ["src/haiway/context/state.py", "src/haiway/context/access.py", "src/haiway/context/tasks.py",
            "src/haiway/context/disposables.py"]
 NTYPES = 6
+TWIN = 1000000   # instance ty:(v+TWIN) is a distinct object that compares == to instance ty:v
 CTOR = "110000"  # T0, T1 need no arguments; T2, T3, G[int], G[str] do
 TRUSTED = ["contextvars semantics (ContextVar.set/reset tokens, copy_context on task creation) as modelled in "
            "Haiway/Model/Tasks.lean", "harness/scopestate_common.py executor + environment-stack monitor"]
@@ -61,6 +62,11 @@ class _Sim:
             if self.used and self.rng.random() < 0.3:
                 out.append(self.rng.choice(self.used))
                 continue
+            if self.used and self.rng.random() < 0.15:
+                ty, v = self.rng.choice(self.used)
+                if v < TWIN:
+                    out.append((ty, v + TWIN))   # an equal-but-not-identical twin of an instance supplied earlier
+                    continue
             self.nv += 1
             out.append((self.rng.choice(types_pool), self.nv))
             self.used.append(out[-1])
@@ -97,6 +103,8 @@ class _Sim:
             ops += ["W"]
         if not tk["frames"] and t != 0:
             ops += ["F"]
+        if any(u != t and o["alive"] and any(k in "SU" for _b, k in o["frames"]) for u, o in enumerate(self.tasks)):
+            ops += ["X"]
         return ops
 
     def do(self, t, op, pool):
@@ -129,6 +137,10 @@ class _Sim:
         elif op == "F":
             tk["alive"] = False
             self.labels.append(f"F{t}")
+        elif op == "X":
+            cands = [b for u, o in enumerate(self.tasks) if u != t and o["alive"] for b, k in o["frames"] if k in "SU"]
+            if cands:
+                self.labels.append(f"X{t}.{r.choice(cands)}")
 
     def close_all(self):
         progress = True
@@ -186,7 +198,7 @@ def _drop_dead_probes(labels):
         t = task_of(l)
         if l[0] == "W":
             n += 1
-        if l[0] == "P" and (t in dead or t >= n):
+        if l[0] in "PX" and (t in dead or t >= n):
             continue
         if l[0] == "F":
             dead.add(t)
@@ -225,6 +237,8 @@ def spec_obs(case: str) -> list[str]:
         elif l[0] == "W":
             vis = visible(tk)
             tasks.append({"inh": vis, "frames": []})
+        elif l[0] == "X":
+            out.append("xr")
         elif l[0] == "P":
             _t, ty, d = l[1:].split(".")
             ty = int(ty)
@@ -262,9 +276,12 @@ def monitor(case: str, out: str) -> list[str]:
     if len(got) != len(exp):
         fails.add("lookup.missing-observation")
     owners = supplier_owner(case)
-    probes = [l for l in case.split()[1:] if l[0] == "P"]
+    probes = [l for l in case.split()[1:] if l[0] in "PX"]
     for e, g, p in zip(exp, got, probes):
         if e == g:
+            continue
+        if e == "xr":
+            fails.add("tasks.foreign-exit-accepted")
             continue
         if g.startswith("s:") and e.startswith("s:"):
             pt = task_of(p)
@@ -320,14 +337,27 @@ class _Disp:
         self.states = states
         self.delay = delay
 
+    def __eq__(self, other):  # value semantics: equal-looking doubles are == (identity must decide, not equality)
+        return isinstance(other, _Disp)
+
+    def __hash__(self):
+        return 7
+
     async def __aenter__(self):
         for _ in range(self.delay):
             await asyncio.sleep(0)
         if not self.states:
-            return None
-        if len(self.states) == 1:
+            return None if self.delay % 2 else ()
+        if len(self.states) == 1 and self.delay % 2:
             return self.states[0]
-        return list(self.states)
+        form = (self.delay + len(self.states)) % 4   # every legal way of yielding "several states"
+        if form == 0:
+            return list(self.states)
+        if form == 1:
+            return tuple(self.states)
+        if form == 2:
+            return iter(list(self.states))           # one-shot iterator
+        return (s for s in self.states)              # generator
 
     async def __aexit__(self, et, ev, tb):
         await asyncio.sleep(0)
@@ -359,7 +389,7 @@ def run_real(case: str) -> str:
             for ty, v in insts:
                 o = made.get((ty, v))
                 if o is None:
-                    o = made[(ty, v)] = T[ty](v=v)
+                    o = made[(ty, v)] = T[ty](v=v % TWIN)
                     inst_of[id(o)] = (ty, v)
                 res.append(o)
             return res
@@ -417,19 +447,33 @@ def run_real(case: str) -> str:
                             await block(tid)
                         done_flag["n"] += 1
                     elif kind == "S":
-                        with ctx.scope(f"b{b}", *direct):
+                        cm = open_cms[int(b)] = ctx.scope(f"b{b}", *direct)
+                        with cm:
                             done_flag["n"] += 1
                             await block(tid)
+                        open_cms.pop(int(b), None)
+                        cm = None
                         done_flag["n"] += 1
                     else:
-                        with ctx.updated(*direct):
+                        cm = open_cms[int(b)] = ctx.updated(*direct)
+                        with cm:
                             done_flag["n"] += 1
                             await block(tid)
+                        open_cms.pop(int(b), None)
+                        cm = None
                         done_flag["n"] += 1
                 elif k == "L":
                     return
                 elif k == "P":
                     obs.append(probe(l))
+                    done_flag["n"] += 1
+                elif k == "X":
+                    other = open_cms.get(int(l[1:].split(".")[1]))
+                    try:
+                        other.__exit__(None, None, None)
+                        obs.append("xok")
+                    except BaseException:  # noqa: BLE001
+                        obs.append("xr")
                     done_flag["n"] += 1
                 elif k == "W":
                     child = counter["next"]
@@ -444,6 +488,7 @@ def run_real(case: str) -> str:
                     raise _Finish()
 
         children: list = []
+        open_cms: dict[int, object] = {}
 
         async def interp(tid):
             try:
